@@ -4,7 +4,7 @@ from fractions import Fraction as F
 from scen import *
 from opsprof import *
 
-def contested_cfg(menu, ents, double=False):
+def contested_cfg(menu, ents, double=False, hold=False):
     """one key per pair of types, bound by a consuming action in both; exclusive types get the same spec on every entity"""
     ids = Ids()
     pairs = list(itertools.combinations(menu, 2))
@@ -25,7 +25,10 @@ def contested_cfg(menu, ents, double=False):
         def build():
             # double: the pair's action binds two contested keys in both types (Cumulative and MaxAbs in turn), so
             # that the winner has several contributing inputs in one frame and must take all of them
-            return spec([action(ids, a, [bind(ids, key(k), [], [])] + ([bind(ids, key(k + len(pairs)), [], [])] if double else []))
+            # hold: every action carries a Hold condition with a very long hold time, so that the winner is Ongoing, not
+            # Fired: it wins the contested key all the same
+            return spec([action(ids, a, [bind(ids, key(k), [], [])] + ([bind(ids, key(k + len(pairs)), [], [])] if double else []),
+                                [], ['(c_hold 100/1 false 1/2 false)'] if hold else [])
                          for a, k in acts_of[c]])
         if ctx_shared(c):
             s = build()
@@ -34,8 +37,8 @@ def contested_cfg(menu, ents, double=False):
             for e in ents: cfg[(c, e)] = build()
     return cfg, list(range(len(pairs) * (2 if double else 1)))
 
-def history_scenario(rng, menu, ents, ops, double=False, held=False):
-    cfg, keys = contested_cfg(menu, ents, double)
+def history_scenario(rng, menu, ents, ops, double=False, held=False, hold=False):
+    cfg, keys = contested_cfg(menu, ents, double, hold)
     steps = []
     for o in ops:
         steps.append(sop(o))
@@ -77,6 +80,7 @@ def cases(tier, rng):
                 yield (history_scenario(rng, menu, [0, 1], base_ops), 'insertion-order')
                 yield (history_scenario(rng, menu, [0, 1], base_ops, True), 'insertion-order-two-keys')
                 yield (history_scenario(rng, menu, [0, 1], base_ops, nents == 2, True), 'insertion-order-keys-held')
+                yield (history_scenario(rng, menu, [0, 1], base_ops, nents == 1, False, True), 'insertion-order-ongoing-winners')
                 for c in menu:
                     yield (history_scenario(rng, menu, [0, 1], base_ops + [remove(0, c), insert(0, c)]), 'remove-reinsert')
                 yield (history_scenario(rng, menu, [0, 1], base_ops + [REBUILD]), 'rebuild')
@@ -101,7 +105,7 @@ def cases(tier, rng):
                 # move an exclusive type to another entity: remove first, so that one entity holds it at a time
                 if not ctx_shared(c):
                     ops.append(remove(owner[c], c)); owner[c] = rng.choice(ents); ops.append(insert(owner[c], c))
-        yield (history_scenario(rng, menu, ents, ops, rng.random() < .5, rng.random() < .4), 'random')
+        yield (history_scenario(rng, menu, ents, ops, rng.random() < .5, rng.random() < .4, rng.random() < .3), 'random')
 
 def nontrivial(case, out):
     return out.count('SFired') >= 2
@@ -109,7 +113,7 @@ def nontrivial(case, out):
 STAGES = [dict(name='priority', mode='app', coq='Check.C06c', cases=cases, nontrivial=nontrivial, shard=20,
                exhaustive={'thorough': True, 'quick': True},
                rule='3 (quick) / 4 (thorough) context types out of priorities {30,20,-10,0,10,-20,15,5} in two selections: every insertion order, each followed by every single removal and re-insertion and by a rebuild, '
-                    'over 1-2 entities; random histories of 4-40 inserts/removes/rebuilds/moves over 3-5 types and 3 entities. Every pair of types contests one key - or, in half of the cases, two keys bound by one Cumulative / MaxAbs action - through a consuming action in both; after each op '
+                    'over 1-2 entities; random histories of 4-40 inserts/removes/rebuilds/moves over 3-5 types and 3 entities. Every pair of types contests one key - or, in half of the cases, two keys bound by one Cumulative / MaxAbs action - through a consuming action in both (in a third of the cases with a long Hold condition, so that the winner is Ongoing rather than Fired); after each op '
                     'an idle frame and a frame with all keys down are run and the winner of every pair is read from the polled states; in a third of the cases insertions happen while all keys stay down, and a type of intermediate priority arrives while the highest and the lowest contest a held key: the existing instances must not notice. non-trivial = at least two actions fire; distinct = distinct scenario text')]
 CLAUSES = {1: 'a lower-priority context won a contested input (or a higher-priority one did not fire)', 2: 'events of a lower-priority context were produced before those of a higher-priority one', 3: 'a context type inserted while all keys stayed down changed the state of an action of an instance that was already there (a loser started to fire, or a winner stopped)',
            8: 'panic', 9: 'malformed trace', 10: 'panic'}
